@@ -1,7 +1,9 @@
+mod cluster;
 mod falsify;
 mod gen;
 mod json;
 mod model;
+mod sim;
 mod state;
 mod vid;
 
@@ -162,7 +164,7 @@ fn main() {
             let prop = args.get(2).cloned().unwrap_or_default();
             let seed: u64 = arg(&args, "--seed", "1").parse().unwrap();
             let budget: u64 = arg(&args, "--budget", "100").parse().unwrap();
-            match falsify::run(&prop, seed, budget) {
+            match falsify::run(&prop, seed, budget).or_else(|| cluster::run(&prop, seed, budget)) {
                 Some(o) => println!("{}", o.to_json().to_string()),
                 None => {
                     eprintln!("no falsifier for {prop}");
